@@ -51,7 +51,12 @@ CLAIM = dict(
     "enforced for Newton (1e-5) and on thin grids, for Bregman it is a BOUNDED known finding (unconverged <= 100 %, flagged-converged <= 15 %, "
     "measured 66 % / 4.7 %); min_symm/min_smul/min_weight_smul are conditional on a given minimum of a rational-valued seminorm cost; "
     "dispatch_total covers nine tabulated spellings; EMD.__call__ internals (normalisation, float32 signatures, cv2.EMD) are not modelled, "
-    "only its rescaling formula and its observable laws; the CORNER rule has its exact dual (one dual vector per cell and corner, "
+    "only its rescaling formula and its observable laws - REPLACED in round 4: "
+    "EMD.__call__'s own arithmetic IS modelled (normalisation, signature rows [weight, col*del_x, row*del_y], rescaling by integral*cell volume; "
+    "sigOf tied exactly on dyadic images through the private helpers, loudly noted if they disappear) around an ABSTRACT cv2.EMD with the "
+    "transport-metric contract IsW1 (symmetric, Euclidean distance between point masses, first-moment bound on unit-mass signatures): "
+    "emd_call_single_move, emd_call_symm, emd_call_smul (needs no contract), emd_call_first_moment are proved from it; that cv2.EMD "
+    "meets the contract is observed by the oracle only; the CORNER rule has its exact dual (one dual vector per cell and corner, "
     "potential_lower_bound_rule / potential_lower_bound_corners, certificates found by LP, made exactly rational and re-checked by certRuleOK: "
     "gap to the scipy minimum 0.2 %), so the 'never below the true minimum' clause is tight for CONSTANT_SUBCELL_PROJECTION and "
     "CONSTANT_CELL_PROJECTION; for the Gauss rule (RAVIART_THOMAS) the same theorem applies but its coupling weights w_q*pt_q are irrational, "
@@ -541,6 +546,30 @@ def emd_oracle(ctx, d):
     ctx.cov.setdefault("correspondence", {})["emd-single-move(float32 signature, rel 1e-5)"] = {"cases": len(lines), "disagreements": bad}
     if bad:
         ctx.mark("CORR-BROKEN", {"correspondence": "emd-single-move", "request": first[0], "model_square": first[1], "impl": first[2], "n_diffs": bad})
+    # signature construction of EMD.__call__ (normalise by the sum, rows [weight, col*del_x, row*del_y] in row-major order,
+    # del_y, del_x = voxel_size) against the model `sigOf`, exactly, on dyadic images whose sum is a power of two
+    slines, simpl = [], []
+    missing = 0
+    for _ in range(ctx.pick(6, 30)):
+        rows, cols = rng.randint(1, 4), rng.randint(1, 4)
+        dy, dx = rng.choice((0.25, 0.5, 1.0, 2.0, 1.5)), rng.choice((0.25, 0.5, 1.0, 0.75))
+        a = np.array([rng.randint(0, 8) / 8 for _ in range(rows * cols)])
+        a[0] += 8.0 - a.sum()  # total 8: every weight a/8 is exact in float32
+        img = image(d, a.reshape(rows, cols), [rows * dy, cols * dx])
+        try:
+            sig = e._img_to_sig(e._normalize(e._preprocess(img)), dx=tuple(img.voxel_size), time_num=1)[0]
+            simpl.append(" | ".join(" ".join(fmt(float(x)) for x in row) for row in np.asarray(sig, dtype=float)))
+        except AttributeError:
+            missing += 1
+            continue
+        except Exception as ex:  # noqa: BLE001
+            simpl.append(repr(Raised(ex)))
+        slines.append(f"sig {rows} {cols} {fmt(dy)} {fmt(dx)} {flist(a)}")
+    if slines:
+        ctx.correspond("emd-signature-construction", slines, simpl)
+    if missing:
+        ctx.notes.append(f"EMD._img_to_sig/_normalize/_preprocess not available in {missing} cases: signature construction NOT tied")
+        ctx.log("NOTE EMD signature helpers missing: signature construction not tied")
     # general pairs: symmetry, scaling, first-moment bound
     for _ in range(ctx.pick(8, 40)):
         rows, cols = rng.randint(2, 5), rng.randint(2, 5)
